@@ -115,7 +115,7 @@ def gen_unary(rng, cx=False):
                 yield case(name, [onp.abs(A(rng, shp, dom, False)).astype(complex)], tags=["zero_imag"])
     # out= : the caller's output buffer (a fresh one per call) - the primal result goes there, nothing else may
     dt = "complex128" if cx else "float64"
-    for name in ("negative", "sin", "exp", "square", "conj", "real", "sqrt", "tanh", "reciprocal", "abs", "sign", "cumsum", "sum", "mean", "prod", "cumprod", "transpose", "ravel"):
+    for name in ("negative", "sin", "exp", "square", "conj", "real", "sqrt", "tanh", "reciprocal", "abs", "cumsum", "sum", "mean", "prod", "cumprod", "transpose", "ravel"):
         if cx and name in NO_COMPLEX:
             continue
         shp = (3,)
